@@ -156,9 +156,9 @@ def run(tier):
             else:
                 g = OwnGen(rnd)
                 local = rnd.random() < 0.35   # all variables local to one function
-                prog = g.build(n_items=rnd.randint(10, 22), d=2, nest=rnd.randint(1, 3), n_funcs=0 if local else rnd.randint(1, 3))
+                prog = g.build(n_items=rnd.randint(10, 22), d=2, nest=rnd.randint(1, 3), n_funcs=rnd.randint(0, 2) if local else rnd.randint(1, 3), pure_funcs=local)
                 if local:
-                    wrap_in_function(prog)
+                    wrap_in_function(prog, allow_funcs=True)
             try:
                 exp = runner.expected(prog)
             except ModelDomain:
